@@ -28,9 +28,11 @@ type AsmCase struct {
 func (a *AsmCase) text() string { return strings.Join(a.Lines, "\n") + "\n" }
 
 type poolInfo struct {
-	Sigma []string `json:"sigma"`
-	N     int      `json:"n"`
-	Pool  []struct {
+	Sigma  []string `json:"sigma"`
+	N      int      `json:"n"`
+	Config string   `json:"config"`
+	CfgSel string   `json:"cfgsel"`
+	Pool   []struct {
 		Txt  string   `json:"txt"`
 		Lang []string `json:"lang"`
 	} `json:"pool"`
@@ -124,6 +126,12 @@ func (r *asmReplayer) onCase(raw []byte) error {
 			}
 		}
 		r.c.Cov["pool_entries_cross_checked"] = len(pi.P.Pool)
+		if pi.P.Config != "" {
+			// toolchain.yaml of this model instance (absent when empty)
+			if err := writeTree(r.root, Tree{"regex-assembly/toolchain.yaml": pi.P.Config}); err != nil {
+				return err
+			}
+		}
 		if len(pi.Files) > 0 {
 			// the file set shared by all cases of this model (never written by generate)
 			t := Tree{}
@@ -242,6 +250,11 @@ func (r *asmReplayer) judge(cs *AsmCase, o asmObs) string {
 	}
 	if o.Fail != "" {
 		return "well-formed program does not compile: " + o.Fail
+	}
+	for _, l := range cs.Lines {
+		if strings.HasPrefix(l, "(?i)") || strings.HasPrefix(l, "(?s)") {
+			return "" // inline flag groups are outside the language property (C01's quantifier)
+		}
 	}
 	want := setOf(cs.Lang)
 	got, err := r.u.langOfRegex(o.Out)
